@@ -1808,8 +1808,10 @@ pub fn gen_ops(rng: &mut Rng, focus: Focus, faults: bool) -> Vec<Op> {
 /// clone_from, the three serde arms, unpack, drop, vector conversion with and without a failing converter).
 /// Generated functions are straight-line, so one execution covers each of them; the seeded histories add
 /// the interleavings.
-pub fn gen_tour(meta: &DefMeta, faults: bool) -> Vec<Vec<Op>> {
+pub fn gen_tour(meta: &DefMeta, faults: bool, light: bool, focus: Focus) -> Vec<Vec<Op>> {
     let mut tours = Vec::new();
+    // sections a property's own check tours under the (slow) interpreter; natively every section is toured
+    let wants = |props: &[Focus]| !light || focus == Focus::All || focus == Focus::C06 || focus == Focus::C07 || props.contains(&focus);
     let clean = IoPlan::clean();
     let nv = meta.variants.len();
     for v in 0..nv {
@@ -1817,6 +1819,7 @@ pub fn gen_tour(meta: &DefMeta, faults: bool) -> Vec<Vec<Op>> {
         let nf = meta.variants[v].fields.len() as u8;
         // accessors, writes, placements
         let mut h = vec![Op::New { v: v8, uninit: false, place: 0, via_from: false }, Op::Get { r: 0, stack: true }];
+        let basic = wants(&[Focus::C04]);
         for f in 0..nf {
             h.push(Op::Set { r: 0, f });
             h.push(Op::Mutate { r: 0, f });
@@ -1825,9 +1828,12 @@ pub fn gen_tour(meta: &DefMeta, faults: bool) -> Vec<Vec<Op>> {
         h.push(Op::Move { r: 0, place: 2 });
         h.push(Op::Get { r: 0, stack: false });
         h.push(Op::Unpack { r: 0 });
-        tours.push(h);
+        if basic {
+            tours.push(h);
+        }
         // the mandatory-only constructor and the From routes
-        tours.push(vec![
+        if basic {
+            tours.push(vec![
             Op::New { v: v8, uninit: true, place: 1, via_from: false },
             Op::New { v: v8, uninit: true, place: 2, via_from: true },
             Op::New { v: v8, uninit: false, place: 0, via_from: true },
@@ -1837,17 +1843,21 @@ pub fn gen_tour(meta: &DefMeta, faults: bool) -> Vec<Vec<Op>> {
             Op::Drop { r: 0 },
             Op::Unpack { r: 0 },
         ]);
+        }
         // clone, clone_from (and every panic position in the fault arm)
-        if meta.has_clone {
+        if meta.has_clone && wants(&[Focus::C16]) {
             let mut h = vec![Op::New { v: v8, uninit: false, place: 0, via_from: false }, Op::Clone { r: 0, panic_at: 0, place: 1 }, Op::Set { r: 1, f: 0 }, Op::CloneFrom { dst: 0, src: 0, panic_at: 0 }, Op::Drop { r: 0 }];
-            if faults {
+            if faults && !light {
                 h.push(Op::CloneSweep { r: 0, from: false });
                 h.push(Op::CloneSweep { r: 0, from: true });
+            } else if faults {
+                h.push(Op::Clone { r: 0, panic_at: 2, place: 0 });
+                h.push(Op::CloneFrom { dst: 0, src: 0, panic_at: 1 });
             }
             tours.push(h);
         }
         // the three serde arms, round trip and (fault arm) every fault position
-        if meta.has_serde {
+        if meta.has_serde && wants(&[Focus::C15]) {
             for fmt in [Fmt::Json, Fmt::Bincode, Fmt::JsonValue] {
                 let mut h = vec![
                     Op::New { v: v8, uninit: false, place: 0, via_from: false },
@@ -1855,8 +1865,15 @@ pub fn gen_tour(meta: &DefMeta, faults: bool) -> Vec<Vec<Op>> {
                     Op::Decode { r: 0, fmt, mutation: StreamMut::None, io: clean, de_fail_at: 0, place: 1 },
                 ];
                 if faults {
+                    // the interpreter arm (light) takes one position per fault kind instead of every position
                     for kind in 0..4 {
-                        h.push(Op::DecodeSweep { r: 0, fmt, kind });
+                        if !light {
+                            h.push(Op::DecodeSweep { r: 0, fmt, kind });
+                        }
+                    }
+                    if light {
+                        h.push(Op::Decode { r: 0, fmt, mutation: StreamMut::Truncate(5), io: clean, de_fail_at: 0, place: 0 });
+                        h.push(Op::Decode { r: 0, fmt, mutation: StreamMut::None, io: clean, de_fail_at: 2, place: 0 });
                     }
                     h.push(Op::Decode { r: 0, fmt, mutation: StreamMut::Extra, io: clean, de_fail_at: 0, place: 0 });
                     h.push(Op::Decode { r: 0, fmt, mutation: StreamMut::Missing, io: clean, de_fail_at: 0, place: 0 });
@@ -1866,7 +1883,7 @@ pub fn gen_tour(meta: &DefMeta, faults: bool) -> Vec<Vec<Op>> {
             }
         }
         // every conversion form to the next variant, single records and vectors
-        if v + 1 < nv {
+        if v + 1 < nv && wants(&[Focus::C05]) {
             for form in 0..4u8 {
                 tours.push(vec![
                     Op::New { v: v8, uninit: false, place: form % 3, via_from: false },
@@ -1886,7 +1903,7 @@ pub fn gen_tour(meta: &DefMeta, faults: bool) -> Vec<Vec<Op>> {
         }
     }
     // chains of conversions from the first to the last variant, each form throughout
-    if nv > 1 {
+    if nv > 1 && wants(&[Focus::C05]) {
         for forms in [0u32, 0x5555_5555, 0xaaaa_aaaa, 0xffff_ffff, 0x1b1b_1b1b] {
             tours.push(vec![Op::New { v: 0, uninit: false, place: 0, via_from: false }, Op::Chain { r: 0, forms }, Op::Get { r: 0, stack: false }]);
         }
@@ -2028,6 +2045,7 @@ pub fn cli(ctx: &Ctx, args: &[String]) -> i32 {
             // directed tours of (a slice of) the definitions; same report shape as `batch`
             let seed: u64 = arg(args, "--seed").unwrap_or("0").parse().unwrap();
             let faults = arg(args, "--faults").unwrap_or("on") == "on";
+            let focus = Focus::parse(arg(args, "--focus").unwrap_or("all"));
             let init_skipped = args.iter().any(|a| a == "--init-skipped");
             let trace = args.iter().any(|a| a == "--trace-cases");
             let max_defs: usize = arg(args, "--max-defs").and_then(|s| s.parse().ok()).unwrap_or(usize::MAX);
@@ -2044,7 +2062,7 @@ pub fn cli(ctx: &Ctx, args: &[String]) -> i32 {
                     continue;
                 }
                 let e = &ctx.registry[di];
-                for ops in gen_tour((e.meta)(), faults) {
+                for ops in gen_tour((e.meta)(), faults, init_skipped, focus) {
                     let case = Case { def: e.def.to_string(), cap: e.cap.to_string(), cfg: RunCfg { faults, init_skipped }, ops };
                     if trace {
                         eprintln!("CASE {}", serde_json::to_string(&case).unwrap());
